@@ -595,11 +595,24 @@ func runWireCase(raw json.RawMessage, w *TraceWriter) {
 			br3 := thrift.NewBufferReader(rd3)
 			o0 := decodeStream(c.Kind, in, br3)
 			first := o0.err != nil && wrapsSource(o0.err, errTransient) && rd3.ReadLen() == 0
+			text0 := ""
+			if o0.err != nil {
+				text0 = o0.err.Error()
+			}
 			o3 := decodeStream(c.Kind, in, br3)
-			w.Ev("dec", "api", "stream", "kind", c.Kind, "frag", sh.name+"+retry-after-transient-error", "in", inJSON, "ok", o3.ok && first, "n", o3.n, "used", rd3.ReadLen(), "val", Raw(o3.val),
-				"tid", tidOf(o3.err), "srcerr", first && wrapsSource(o3.err, src3.endErr()), "panic", o3.panicd || o0.panicd)
+			used3 := rd3.ReadLen()
+			second := wrapsSource(o3.err, src3.endErr())
 			br3.Recycle()
 			rd3.Release(nil)
+			// the errors belong to whoever got them: the reader object goes back to the pool, its next owner fails with
+			// an error of its own - the two errors handed out before still say what they said
+			br4 := thrift.NewBufferReader(&flakyReader{fwdReader: fwdReader{r: bufiox.NewBytesReader(nil)}, failFirst: errInjected})
+			_, e4 := br4.ReadI64()
+			br4.Recycle()
+			kept := o0.err != nil && wrapsSource(o0.err, errTransient) && o0.err.Error() == text0 && !errors.Is(o0.err, errInjected) &&
+				(o3.err == nil || (wrapsSource(o3.err, src3.endErr()) == second && !errors.Is(o3.err, errInjected))) && e4 != nil
+			w.Ev("dec", "api", "stream", "kind", c.Kind, "frag", sh.name+"+retry-after-transient-error", "in", inJSON, "ok", o3.ok && first && kept, "n", o3.n, "used", used3, "val", Raw(o3.val),
+				"tid", tidOf(o3.err), "srcerr", first && second && kept, "panic", o3.panicd || o0.panicd)
 		}
 	}
 }
